@@ -43,7 +43,7 @@ def shapes(op, n, twice):
 
 def jobs(tier):
     js = []
-    def add(op, n, twice, timeout=120, unwind=16):
+    def add(op, n, twice, timeout=120, unwind=24):
         for pat, signs, pre, params in shapes(op, n, twice):
             nm = '%s/%s/pre%s%s' % (OPS[op], ''.join(('+' if s else '-') + str(v) for v, s in zip(pat, signs)), ''.join(map(str, pre)), '/twice' if twice else '')
             js.append(Job(nm, 'C13_bool.cpp', 'h_reify', SAT_UNITS, unwind, params=params, timeout=timeout,
@@ -62,10 +62,22 @@ def jobs(tier):
         for ord_ in range(4):
             for signs in ([(1, 1, 1, 1), (1, 0, 1, 0)] if tier == 'quick' else list(itertools.product((1, 0), repeat=4))):
               for sh in range(3):
-                js.append(Job('%s/pair/ord%d/%s/shared%d' % (OPS[op], ord_, ''.join(map(str, signs)), sh), 'C13_bool.cpp', 'h_pair', SAT_UNITS, 16, params=[op, ord_] + list(signs) + [sh], timeout=120,
+                js.append(Job('%s/pair/ord%d/%s/shared%d' % (OPS[op], ord_, ''.join(map(str, signs)), sh), 'C13_bool.cpp', 'h_pair', SAT_UNITS, 24, params=[op, ord_] + list(signs) + [sh], timeout=120,
                               desc='%s(x,y) and %s(z,y) sharing y (the variable with index rank %d), argument orders %d, signs %s, first one requested again; models symbolic' % (OPS[op], OPS[op], sh, ord_, signs), bounds={'args': 2}))
+    # two constructs of different kinds over the same arguments (cache interference across kinds, one construct reused inside another)
+    for opa in range(5):
+        for opb in range(5):
+            if opa == opb: continue
+            for n in (2, 3):
+                if n == 3 and (opa == 0 or opb == 0): continue
+                for rev in ((0,) if tier == 'quick' else (0, 1)):
+                    for signs in ([(1,) * n, (1, 0, 1)[:n]] if tier == 'quick' else list(itertools.product((1, 0), repeat=n))):
+                        js.append(Job('cross/%s-%s/n%d/rev%d/%s' % (OPS[opa], OPS[opb], n, rev, ''.join(map(str, signs))), 'C13_bool.cpp', 'h_cross', SAT_UNITS, 80,
+                                      params=[opa, opb, n, rev] + list(signs), timeout=180,
+                                      desc='%s(args) then %s(args) over the same %d arguments (signs %s, second one %s), first one requested again; models and argument assignments symbolic, auxiliary variables enumerated'
+                                      % (OPS[opa], OPS[opb], n, signs, 'reversed' if rev else 'same order'), bounds={'args': n}))
     for op in (3, 4):
         for n in ((4, 5) if tier == 'quick' else (4, 5, 6, 7)):
-            js.append(Job('%s/grid/n%d' % (OPS[op], n), 'C13_bool.cpp', 'h_grid', SAT_UNITS, 30, params=[op, n], timeout=240, mem=8,
+            js.append(Job('%s/grid/n%d' % (OPS[op], n), 'C13_bool.cpp', 'h_grid', SAT_UNITS, 40 if n <= 5 else 80, params=[op, n], timeout=240, mem=8,
                           desc='%s over %d fresh positive arguments (product / grid encoding); models and argument assignments symbolic' % (OPS[op], n), bounds={'args': n}))
     return js
